@@ -1543,11 +1543,20 @@ func (o *outcome) monitors() []string {
 	// callback ledger (C06): at most once per stored value (values are unique per store); key matches
 	if isCache {
 		seen := map[string]bool{}
+		seenVal := map[string]string{}
 		for _, c := range o.cbLedger {
 			if seen[c] {
 				bad = append(bad, "CALLBACK: fired twice: "+c)
 			}
 			seen[c] = true
+			// every store writes a value of its own, so one value is reported at most once and under one key (callback 9
+			// itself stores the evicted value again under a second key: not judged)
+			if p := strings.SplitN(c, ":", 3); len(p) == 3 && o.prog.cb != 9 {
+				if c0, dup := seenVal[p[2]]; dup && c0 != c {
+					bad = append(bad, "CALLBACK: one stored value reported under two keys (an entry was reported with another entry's value): "+c0+" and "+c)
+				}
+				seenVal[p[2]] = c
+			}
 		}
 		// a loaded GetAndDelete fires its value exactly once when a callback is installed
 		for _, h := range o.hist {
